@@ -40,9 +40,10 @@ replace github.com/magefile/mage => %s
 # code before that commit (kept in the model for C09_clean_before_repair_refuted).
 CLEANUP_AFTER_FAILED_GENERATION = True
 
-# With HOME and MAGEFILE_CACHE unset (and the go tool still usable) mage puts its binary cache into ./.magefile, i.e. into the
-# magefile directory.  The run is made and recorded in the evidence; it is judged by the oracle only when this is True.
-JUDGE_HOME_UNSET_CACHE = False
+# With HOME and MAGEFILE_CACHE unset (and the go tool still usable) mage used to put its binary cache into ./.magefile, i.e. into
+# the magefile directory (found by this check; repaired by commit 293a481: fallback to os.TempDir()/.magefile).  The scenario
+# env-home-unset-gocache is an ordinary oracle + model case (a successful run that leaves the directory unchanged).
+JUDGE_HOME_UNSET_CACHE = True
 
 STEPS = ["RemoveStale", "ListMage", "ListNonMage", "CheckFiles", "HashFiles", "GoVersion", "GoEnvGocache", "StatExe",
          "Parse", "GoListDir", "GoListFiles", "Dupes", "CreateMain", "WriteMain", "CloseMain", "Chtimes", "RegisterDefer",
@@ -331,7 +332,7 @@ def build_scenarios(rng, gen, quick):
     A(scenario("env-exe-is-dir-hash", envfault="exe-is-dir", hashfast=True, prewarm=True))
     A(scenario("env-cache-parent-file-keep", envfault="cache-parent-file", keep=True))
     A(scenario("env-cache-parent-file-list", envfault="cache-parent-file", args=["-l"]))
-    A(scenario("env-home-unset-gocache", envfault="home-unset-gocache", special=True))
+    A(scenario("env-home-unset-gocache", envfault="home-unset-gocache"))
     if not quick:
         A(scenario("env-cache-full-hash", envfault="cache-full", hashfast=True))
         A(scenario("env-cache-parent-ro-hash", envfault="cache-parent-ro", hashfast=True))
@@ -442,6 +443,8 @@ def run_scenario(mage, tools, sc, files, workdir):
         e.pop("HOME", None)
         e.pop("MAGEFILE_CACHE", None)
         e.pop("XDG_CACHE_HOME", None)
+        e["TMPDIR"] = os.path.join(workdir, "tmp")  # since 293a481 the cache falls back to os.TempDir()/.magefile: keep it private
+        os.makedirs(e["TMPDIR"], exist_ok=True)
         if ef == "home-unset-gocache":
             e.update(tools["goenv"])                # the go tool itself keeps working (GOCACHE, GOPATH, GOMODCACHE given)
         p = subprocess.run([mage.bin] + args, cwd=d, env=e, stdin=subprocess.DEVNULL, stdout=subprocess.PIPE, stderr=subprocess.PIPE, timeout=180)
@@ -996,14 +999,9 @@ def run(ctx):
             meta.append((sc, "after-crash"))
             dist["leftover"]["after-kill"] = dist["leftover"].get("after-kill", 0) + 1
             continue
-        if sc.get("envfault") == "home-unset-gocache":
-            # HOME and MAGEFILE_CACHE unset: mg.CacheDir() is the RELATIVE path ".magefile", the binary cache is created inside the
-            # directory mage was started in.  Observed and reported, not judged (JUDGE_HOME_UNSET_CACHE) and not modelled.
+        if sc.get("envfault") == "home-unset-gocache" and not JUDGE_HOME_UNSET_CACHE:
             ch = sorted(p for p in set(ob["before_h"]) | set(ob["after_h"]) if ob["before_h"].get(p) != ob["after_h"].get(p))
             notes.append({"scenario": sc["id"], "exit": ob["rc"], "changed_paths": ch[:4]})
-            if JUDGE_HOME_UNSET_CACHE:
-                for c in oracle_run(dict(sc, special=False), ob, None, None):
-                    ctx.violation({"kind": "oracle", "clause": c, "scenario": sc["id"]}, case=case)
             continue
         tcode = tcode_of(sc)
         faults = expected_faults(sc, reflogs.get(cfg(sc), []), tcode)
